@@ -213,3 +213,31 @@ for _H in (2, 3):
         if shape_is(vc, mix, [F, Ko, N], "mixture_index_shape"):
             vc.ensure("returns_the_drawn_components", mix.elem([f, o, n]) == m)
     obligation(f"C15.sample.TorchTuckerLayer.arity{_H}", "C15", [f"{LO_}:TorchTuckerLayer.sample"])(_h)
+
+
+@obligation("C15.sample.TorchTensorDotLayer", "C15", [f"{LO_}:TorchTensorDotLayer.sample"])
+def _(vc):
+    """TorchTensorDotLayer (one factor of a sum with a Kronecker-product weight shattered by optimize=True): out[(q, k)] = SUM_j w[k, j] x[(j, q)];
+    sampling draws, per fold, output unit (q, k) and sample, a contracted index j from Categorical(w[f, k, :]) and returns the sample of input unit
+    (j, q) - the unit the forward pass multiplies with w[k, j]"""
+    F, Kj, Kq, Kk, N, D = (vc.int(n, lo=1) for n in ("F", "Kj", "Kq", "Kk", "N", "D"))
+    W, Wt = param(vc, "weight", F, (Kk, Kj))
+    layer = vc.new(f"{LO_}:TorchTensorDotLayer", Kj * Kq, Kq * Kk, weight=W, semiring=semiring(vc), num_folds=F)
+    x = vc.tensor("x", (F, 1, Kj * Kq, N, D))
+    exc, res = vc.raises(lambda: vc.call((layer, "sample"), x))
+    if exc is not None:
+        vc.ensure("only_refusal_is_for_negative_weights", z3.Or(exc == "ValueError", exc == "TypeError"))
+        return
+    y, mix = list(vc.I.B.iterate(vc.I, res))
+    if not shape_is(vc, y, [F, Kq * Kk, N, D]):
+        return
+    draws = vc.I.__dict__.get("categorical_draws", [])
+    vc.ensure("one_categorical_draw_from_the_weights", len(draws) == 1 and draws[0][1] is Wt)
+    if len(draws) != 1:
+        return
+    m_t = draws[0][0]
+    f, q, k, n, d = vc.index_consts([F, Kq, Kk, N, D])
+    j = m_t.elem([n, q, f, k])
+    vc.ensure("sample_of_the_drawn_contracted_unit_j_q", y.elem([f, MR([(q, Kq), (k, Kk)]), n, d]) == x.elem([f, 0, MR([(j, Kj), (q, Kq)]), n, d]))
+    if shape_is(vc, mix, [F, Kq * Kk, N], "mixture_index_shape"):
+        vc.ensure("returns_the_drawn_indices", mix.elem([f, MR([(q, Kq), (k, Kk)]), n]) == j)
